@@ -3,7 +3,7 @@ From Coq Require Import List ZArith.
 Import ListNotations.
 From Gen Require Import SelGen.
 From Model Require Import Key Sel GFI GFIEdit Derived.
-From Proofs Require Import GFIBase GFIRef GFIWf GFIConsistent GFIProject GFISim GFIGen GFIEditProofs GFIEditChoices GFIDerived GFICombinators.
+From Proofs Require Import GFIBase GFIRef GFIWf GFIConsistent GFIProject GFISim GFIGen GFIEditProofs GFIEditChoices GFIDerived GFIDerived2 GFICombinators.
 Open Scope Z_scope.
 
 Theorem C11_vmap_trace_is_elementwise : forall axes g t,
@@ -42,3 +42,12 @@ Print Assumptions C11_zero_length_is_empty.
 Theorem C11_every_operation_yields_such_traces : forall g t, produced g t -> wft g t.
 Proof. exact produced_wft. Qed.
 Print Assumptions C11_every_operation_yields_such_traces.
+
+(* repeat(n): n independent element traces of g, all run on the same arguments *)
+Theorem C11_repeat_is_n_copies : forall n g t,
+  wft (g_repeat n g (length (t_args t))) t ->
+  exists us, length us = n /\
+    (forall j u, nth_error us j = Some u -> wft g u /\ t_args u = t_args t /\ csub (t_choices t) (KI j) = t_choices u) /\
+    t_retval t = VA (map t_retval us) /\ t_score t = zsum (map t_score us).
+Proof. exact repeat_is_n_copies. Qed.
+Print Assumptions C11_repeat_is_n_copies.
